@@ -41,7 +41,7 @@ REAL_SIZES = [20, 155, 244, 496, 512]
 COAP_IIDS = [700, 3, 65535, 12, 256, 9]
 LENS = {"A": [1, 2, 8, 3, 1, 5], "B": [300, 1, 255, 2, 256, 4]}
 SYM6 = ["ok:0", "ok:n", "err:r", "tid:n", "ctl:n", "errctl:r"]
-SYM13 = ["ok:0", "ok:n", "err:1", "err:2", "err:3", "err:4", "err:5", "err:6", "tid:n", "tid:0", "ctl:n", "ctl:0", "errctl:r"]
+SYM14 = ["ok:0", "ok:n", "err:1", "err:2", "err:3", "err:4", "err:5", "err:6", "errb:r", "tid:n", "tid:0", "ctl:n", "ctl:0", "errctl:r"]
 
 
 def _fill(n, salt):
@@ -277,7 +277,7 @@ def case_ble_response(p):
 def _sym(sym, i):
     kind, _, arg = sym.partition(":")
     if arg == "r":
-        arg = str(1 + (i % 6)) if kind == "err" else str(6 - (i % 6))
+        arg = str(6 - (i % 6)) if kind == "errctl" else str(1 + (i % 6))
     return kind, arg
 
 
@@ -289,6 +289,8 @@ def _resp_item(sym, i, tid, val, wt, wc):
         return (coappdu.TYPE_RESPONSE, tid, 0, b"" if arg == "0" else full), ("ok", b"" if arg == "0" else val)
     if kind == "err":
         return (coappdu.TYPE_RESPONSE, tid, int(arg), b""), ("err",)
+    if kind == "errb":  # an error status that (unusually) carries a body: still an error, and the next item must not shift
+        return (coappdu.TYPE_RESPONSE, tid, int(arg), full), ("err",)
     if kind == "tid":
         return (coappdu.TYPE_RESPONSE, _wrong_tid(tid, wt), 0, b"" if arg == "0" else full), ("err",)
     if kind == "ctl":
@@ -602,8 +604,8 @@ def run(ctx):
     )
 
     # ---- BLE responses: every composition of a short body; every status; first fragment with / without body bytes
-    lmax = 10 if quick else 12
-    lfault = 7 if quick else 9
+    lmax = 10 if quick else 13
+    lfault = 7 if quick else 10
     resp = []
     k = 0
     for L in range(1, lmax + 1):
@@ -647,17 +649,17 @@ def run(ctx):
     )
 
     # ---- CoAP
-    nmax6 = 4 if quick else 6
+    nmax6 = 5 if quick else 6
     dec, bat = [], []
     combos = []  # (vec, lens, wt, wc)
     for n in range(1, nmax6 + 1):
         for vec in itertools.product(SYM6, repeat=n):
             combos.append((vec, "A", "next", 0x00))
-            if n <= (3 if quick else 4):
+            if n <= (3 if quick else 5):
                 combos.append((vec, "B", "next", 0x00))
     variants = [("next", 0x00), ("prev", 0x04), ("ff", 0x0E)]
     for n in range(1, 4):
-        for vec in itertools.product(SYM13, repeat=n):
+        for vec in itertools.product(SYM14, repeat=n):
             for vi, (wt, wc) in enumerate(variants):
                 if quick and n == 3 and vi:
                     continue
@@ -682,7 +684,7 @@ def run(ctx):
     work += _chunks("coap_batch", bat, 500)
     ctx.bounds["coap"] = dict(
         six_symbol_vectors=f"every vector over {SYM6} for batches 1..{nmax6} (err:r / errctl:r rotate through the six defined statuses by position)",
-        full_alphabet=f"every vector over {SYM13} for batches 1..3 x wrong-tid/wrong-control variants {variants}" + (" (n=3: first variant only)" if quick else ""),
+        full_alphabet=f"every vector over {SYM14} for batches 1..3 x wrong-tid/wrong-control variants {variants}" + (" (n=3: first variant only)" if quick else ""),
         body_length_schemes=LENS,
         legs="decode_all_pdus directly; read/write/subscribe/unsubscribe through EncryptionContext.post_all with a fake aiocoap context",
     )
@@ -694,7 +696,7 @@ def run(ctx):
         ctx.require(a.symbols[name] > 0, f"case family {name} never ran")
     for s in ("ble:enc", "ble:plain", "ble:req:nobody", "ble:req:single", "ble:req:fragmented", "ble:fault:tid-first", "ble:fault:tid-cont",
               "ble:fault:noflag-cont", "ble:resp:bare", "ble:resp:frags1", "ble:resp:frags4", "coap:sym:ok", "coap:sym:err", "coap:sym:tid",
-              "coap:sym:ctl", "coap:sym:errctl", "coap:op:read", "coap:op:write", "coap:op:subscribe", "coap:op:unsubscribe", f"coap:n{nmax6}"):
+              "coap:sym:ctl", "coap:sym:errctl", "coap:sym:errb", "coap:op:read", "coap:op:write", "coap:op:subscribe", "coap:op:unsubscribe", f"coap:n{nmax6}"):
         ctx.require(a.symbols[s] > 0, f"alphabet symbol {s} never exercised")
     for st in range(7):
         ctx.require(a.symbols[f"ble:resp:status{st}"] > 0, f"response status {st} never exercised")
